@@ -233,6 +233,23 @@ def main():
         {"mode": "C", "fields": None, "projection": "reading"},
     ]
     ops = alphabet()
+    # single analyses of the extra texts under every configuration
+    for cfg in configs:
+        kwargs = {}
+        if cfg["fields"] is not None:
+            kwargs["fields"] = set(cfg["fields"])
+        if cfg["projection"] is not None:
+            kwargs["projection"] = cfg["projection"]
+        tok = dic.create(MODES[cfg["mode"]], **kwargs)
+        for t in ORACLE.get("extra_texts", []):
+            n_seq += 1
+            try:
+                ms = tok.tokenize(t)
+                check_list([["X", t]], ms, t, ORACLE["analyses"][t][cfg["mode"]], cfg, "tokenize(extra text)")
+            except BaseException as e:
+                if isinstance(e, (KeyboardInterrupt, SystemExit)):
+                    raise
+                fail([["X", t]], "unexpected exception %s: %s" % (type(e).__name__, e))
     for cfg in configs:
         for d in range(1, depth + 1):
             for seq in itertools.product(ops, repeat=d):
